@@ -141,6 +141,61 @@ theorem two_writers_reachable : ∃ s, Reachable (cold 2) s ∧ s.writersIn = 2 
   simp only [obs, List.cons.injEq] at ho
   omega
 
+/-! ## the point of use
+
+`rdft`/`cdft` report the first dereference of the shared tables (`ip[0]`, then the twiddles) through the hook
+`soxr_verif_table_use`; in the model that is the visible step `use_r` (a reader, `rd → ru`) or `use_w` (the writer, `wt → wu`,
+before it rebuilds).  No other step of the model is a table use: a use by a thread that is neither a registered reader nor the
+writer (e.g. a transform called on the shared tables without `UPDATE_FFT_CACHE`, or after `DONE_WITH_FFT_CACHE`) is not a step of
+the model, the driver rejects the trace (TABLE-USE-OUTSIDE-LOCK). -/
+
+/-- a table use is a step of the model only for a thread that holds the reader role or the writer role -/
+theorem table_use_requires_role {l : Label} {s t : St} (hf : fire l s = some t) (hv : l.vis = .use) :
+    (l = .use_r ∧ 0 < s.readersIn) ∨ (l = .use_w ∧ 0 < s.writersIn) := by
+  obtain ⟨g, -⟩ := fire_some hf
+  cases l <;> simp [Label.vis] at hv
+  · left
+    have := num_ge s readersW .rd g.1
+    simp only [readersW] at this
+    exact ⟨rfl, by show 0 < s.num readersW; omega⟩
+  · right
+    have := num_ge s writersW .wt g.1
+    simp only [writersW] at this
+    exact ⟨rfl, by show 0 < s.num writersW; omega⟩
+
+/-- "never read while being rebuilt", at the point of use: when a reader dereferences the tables no thread is re-allocating or
+    rebuilding them, they are complete for the current `FFT_LEN`, and the step changes neither -/
+theorem reader_use_no_rebuild {s t : St} (h : Good s) (hf : fire .use_r s = some t) :
+    s.rebuilding = 0 ∧ 0 < s.flen ∧ s.tab = s.flen ∧ t.flen = s.flen ∧ t.tab = s.tab := by
+  obtain ⟨g, rfl⟩ := fire_some hf
+  have hr : 0 < s.reading := by
+    have := num_ge s readingW .rd g.1
+    simp only [readingW] at this
+    show 0 < s.num readingW; omega
+  have nr := no_read_during_rebuild h
+  have tb := readers_find_tables_built h hr
+  refine ⟨?_, tb.1, tb.2, rfl, rfl⟩
+  by_cases hne : s.rebuilding = 0
+  · exact hne
+  · have := nr.2 (Nat.pos_of_ne_zero hne); omega
+
+/-- … and when the writer dereferences them (to rebuild them) it is the only thread that re-allocates or rebuilds, no thread is
+    inside a transform reading them, and no thread holds the reader role -/
+theorem writer_use_exclusive {s t : St} (h : Good s) (hf : fire .use_w s = some t) :
+    s.rebuilding = 1 ∧ s.reading = 0 ∧ s.writersIn = 1 ∧ s.readersIn = 0 ∧ t.flen = s.flen ∧ t.tab = s.tab := by
+  obtain ⟨g, rfl⟩ := fire_some hf
+  have h1 : 0 < s.rebuilding := by
+    have := num_ge s rebuildingW .wt g.1
+    simp only [rebuildingW] at this
+    show 0 < s.num rebuildingW; omega
+  have h2 : 0 < s.writersIn := by
+    have := num_ge s writersW .wt g.1
+    simp only [writersW] at this
+    show 0 < s.num writersW; omega
+  have nr := no_read_during_rebuild h
+  have we := writer_excludes_all h
+  refine ⟨by omega, nr.2 h1, by omega, we.2 h2, rfl, rfl⟩
+
 /-! ## `vr_init`'s tables -/
 
 /-- PARTIAL: if no thread executes the test `fade_coefs[0]==0` while another is inside the initialiser, the tables are written
@@ -179,6 +234,25 @@ example : ∃ s, Good s ∧ s.reading = 2 ∧ s.flen = 8 ∧ s.tab = 8 := by
   refine ⟨s, .warm 3 hr, ?_⟩
   simp only [obs, List.cons.injEq] at ho
   omega
+
+/-- the hypotheses of `reader_use_no_rebuild` / `writer_use_exclusive` are met: two readers, resp. the writer, at the point of use -/
+example : ∃ s t, Good s ∧ fire .use_r s = some t := by
+  cases hr : run twoReadersTrace (warm 3) with
+  | none => have := twoReaders_at_use; simp [hr] at this
+  | some s =>
+    have h2 := twoReaders_at_use
+    simp only [hr, Option.map_some, Option.some.injEq] at h2
+    have hg : Soxr.Conc.guard .use_r s := ⟨by simp [Label.src, h2], by simp [guardX]⟩
+    exact ⟨s, eff .use_r s, .warm 3 (reach_of_run _ hr), by simp [fire, hg]⟩
+
+example : ∃ s t, Good s ∧ fire .use_w s = some t := by
+  cases hr : run writerInTrace (warm 2) with
+  | none => have := writerIn_at_use; simp [hr] at this
+  | some s =>
+    have h2 := writerIn_at_use
+    simp only [hr, Option.map_some, Option.some.injEq] at h2
+    have hg : Soxr.Conc.guard .use_w s := ⟨by simp [Label.src, h2], by simp [guardX]⟩
+    exact ⟨s, eff .use_w s, .warm 2 (reach_of_run _ hr), by simp [fire, hg]⟩
 
 /-- the re-test matters: a `Good` state in which a thread that upgraded finds `len > FFT_LEN` false (another thread grew the
     cache while it waited) and downgrades -/
